@@ -90,11 +90,13 @@ fn main() {
         "C07" => {
             run.rule = "container chains over {array, dict, struct, variant, maybe} around a byte leaf with (arrays, structs, variants, maybes) counts from the boundary grid {0,1,2,30..34} x {0,1,2,30..34} x {0..3,30..33} x {0,1,2}, 8 orders (sorted, reversed, round-robin, variants-first, 4 shuffles), encode (nested Values) and decode (bytes from the reference marshaller/serialiser), both formats, both routes, both endians — the whole grid is enumerated; plus random counts 0..40; oracle = counting model (<=32 arrays, <=32 structs, <=64 total) and the error must be MaxDepthExceeded; non-trivial = some count within +-1 of its limit; distinct by hash of the chain description".into();
             run.exhaustive = Some(true);
-            vec![spec("depth", 20_000, 400_000, 7, c_depth::c07_case)]
+            run.rule.push_str("; plus sibling shapes: a chain around a limit (or a shallow one) with 1-2 or 31-70 completed sibling containers (empty or equal arrays / dict entries, or small arrays, structs, variants and dicts as struct fields) placed before the deep child at a generated level — depth is the longest root-to-leaf path, siblings must neither lower nor raise the count");
+            vec![spec("depth", 20_000, 400_000, 7, c_depth::c07_case), spec("siblings", 30_000, 600_000, 12, c_depth::c07_sibling_case)]
         }
         "C04" => {
             run.rule = "per feature configuration ({}, gvariant, option-as-array, both — one harness build each): generated signature (maybe types also under D-Bus when the build has them) x {role-aware mutation of a valid reference encoding (D-Bus) / pokes, tail pokes, truncation, insert, delete on a reference GVariant serialisation, random bytes, structured garbage} x 12 decode targets (Value, Structure, Array, OwnedValue, String, Vec<String>, HashMap<String,Value>, tuples, Option, ObjectPath, &[u8]); oracle: no panic (catch_unwind), peak allocation during decode <= 1024*(input+signature length)+64 KiB (counting global allocator), every decoded value re-encodes without panic; non-trivial = container signature and >= 8 input bytes; distinct by hash(signature, bytes, target, format)".into();
-            vec![spec("crash", 300_000, 20_000_000, 220, c_crash::c04_case)]
+            run.rule.push_str("; plus wide containers: structures with 100..253 variable-sized members and arrays with that many elements, fed runs of equal bytes of lengths around 128 / 256 / 512, and truncated / tail-poked valid serialisations");
+            vec![spec("crash", 300_000, 20_000_000, 220, c_crash::c04_case), spec("wide", 40_000, 2_000_000, 24, c_crash::c04_wide_case)]
         }
         "C08" => {
             run.rule = "triples (a, b, c) of dynamic values of one generated type (incl. NaN, +-0, fds, maybe): b and c are copies, one-leaf near misses or fresh values; checked: reflexive/symmetric/transitive ==, cmp antisymmetric/transitive/consistent with == and partial_cmp, equal => equal hash, try_clone / try_to_owned twins keep value, equality, hash and signature, value_signature() == the type it was built with == the signature carried by its encoded variant; non-trivial = nesting depth >= 2 and the type contains a double or a dict; distinct by hash(type, a, b, c)".into();
